@@ -38,6 +38,10 @@ ASSUMPTIONS = [
 
 KEYS = [3.0, 1.0, float("nan"), 2.0, 1.0, 3.0]
 KEYS_SORTED_APPEARANCE = [1.0, 1.0, float("nan"), 2.0, 3.0, 2.0]
+# no null key, two rows per group: head(2)/tail(2) select every row ("nothing to gather" shortcuts)
+KEYS_FULL = [3.0, 1.0, 2.0, 2.0, 1.0, 3.0]
+KEYS_FULL_SORTED = [1.0, 1.0, 2.0, 2.0, 3.0, 3.0]
+KEYSETS = {"": KEYS, "inc": KEYS_SORTED_APPEARANCE, "full": KEYS_FULL, "incfull": KEYS_FULL_SORTED}
 XS = [1, 0, 1, 1, 1, 1]
 MASK = [1, 1, 1, 0, 1, 1]
 N = 6
@@ -87,6 +91,8 @@ def snap(x):
                 x.offset, len(x))
     if isinstance(x, dict):
         return ("dict", tuple((repr(k), snap(v)) for k, v in x.items()))
+    if isinstance(x, (list, tuple)):
+        return ("list", tuple(snap(v) for v in x))
     if isinstance(x, slice):
         return ("slice", x.start, x.stop, x.step)
     if x is None:
@@ -122,6 +128,15 @@ def make_input(arr, cont):
         return Holder({"k": ser}, [ser])
     if cont == "frame":
         return Holder(pd.DataFrame({"a": arr, "b": arr * 2 if arr.dtype.kind in "fiu" else arr}), [])
+    if cont in ("array2d", "list_np", "dict_np"):
+        # several raw NumPy columns: nothing (no copy-on-write) stands between a result and them
+        second = arr * 2 if arr.dtype.kind in "fiu" else arr.copy()
+        if cont == "array2d":
+            a2 = np.column_stack([arr, second])
+            return Holder(a2, [])
+        if cont == "list_np":
+            return Holder([arr, second], [arr, second])
+        return Holder({"a": arr, "b": second}, [arr, second])
     # Arrow-backed: zero-copy views of the NumPy buffer where Arrow allows it
     nullable = arr.dtype.kind in "fmM"
     if arr.dtype.kind == "f":
@@ -215,6 +230,12 @@ class AliasSpace(Subspace):
                     cells.append((op, kc, "ndarray", "f8", rep))
                     if kc in ("ndarray", "pd_series", "pa_chunked"):
                         cells.append((op, kc + "+inc", "ndarray", "f8", rep))
+                    if kc in ("ndarray", "pd_series"):
+                        for ks_ in ("full", "incfull"):
+                            cells.append((op, f"{kc}+{ks_}", "ndarray", "f8", rep))
+                            if op in ("head2", "tail1", "nth0", "shift", "cumsum", "sum_t", "rolling_sum"):
+                                for vc in ("array2d", "list_np", "dict_np"):
+                                    cells.append((op, f"{kc}+{ks_}", vc, "f8", rep))
                 for vc in VAL_CONTS:
                     for dt in dts:
                         if q and rep == "chunkwise" and dt not in ("f8", "M8[ns]"):
@@ -253,11 +274,10 @@ class AliasSpace(Subspace):
         sched.set_schedule(sched.Schedule())
         warnings.simplefilter("ignore")
 
-        inc = kc.endswith("+inc")
-        kc = kc[:-4] if inc else kc
+        kc, _, keyset = kc.partition("+")
 
         def build():
-            karr = np.array(KEYS_SORTED_APPEARANCE if inc else KEYS, dtype="f8")
+            karr = np.array(KEYSETS[keyset], dtype="f8")
             if kc in ("categorical",):
                 karr = np.array(["c", "a", None, "b", "a", "c"], dtype=object)
             K = make_input(karr, kc)
@@ -275,7 +295,7 @@ class AliasSpace(Subspace):
         K, V, M, T = build()
         if V is None:
             return res
-        tag = f"{opn} keys={kc} values={vc}/{dt} {rep}"
+        tag = f"{opn} keys={kc}{'+' + keyset if keyset else ''} values={vc}/{dt} {rep}"
         accessor = opn.startswith("accessor:")
         if accessor:
             fn = lambda g, ctx: getattr(g, opn.split(":")[1])  # noqa
